@@ -91,6 +91,10 @@ func (e *Engine) feasible(st *State, c *Term) (bool, Model) {
 	case Unknown:
 		e.res.Unknown++
 		e.res.note("solver unknown at " + e.pos(e.curInstr))
+		if e.res.Unknown >= 3 {
+			// the job is inconclusive anyway: do not burn the budget on more timeouts
+			panic(pathEnd{kind: "giveup", msg: "3 solver timeouts/unknowns in this job"})
+		}
 		return false, nil
 	}
 	return false, nil
